@@ -133,10 +133,13 @@ def mdd_table_problems(d, held_counts, after_gc=False):
     return bad
 
 
-def mdd_ops(ctx, lens, steps, P='C15', rejected=0.06):
-    """random MDD histories: functions by value tables"""
+def mdd_ops(ctx, lens, steps, P='C15', rejected=0.06, collect=True):
+    """random MDD histories: functions by value tables.  With `collect=False` the manager never
+    collects: several such managers live one after the other in the process, with the same small
+    node numbers denoting other functions (round-22 seed: a computed table shared by the
+    managers that have not collected yet)"""
     rng = ctx.rng
-    s = ctx.session(f'mdd ops lens={lens}')
+    s = ctx.session(f'mdd ops lens={lens}' + ('' if collect else ' no-collection'))
     A = 'm0'
     nv = len(lens)
     s.op(A, 'new', {v: (v, lens[v]) for v in range(nv)})
@@ -144,7 +147,12 @@ def mdd_ops(ctx, lens, steps, P='C15', rejected=0.06):
     space = list(itertools.product(*[range(n) for n in lens]))
 
     def table(u):
-        return tuple(mdd_eval(d, u, dict(enumerate(vals))) for vals in space)
+        # (a result that refers to a node the manager does not hold has no table: it differs
+        # from every expected one and is reported by the callers)
+        try:
+            return tuple(mdd_eval(d, u, dict(enumerate(vals))) for vals in space)
+        except KeyError:
+            return ('dangling', u)
 
     def build(tab):
         """MDD for a table via find_or_add bottom-up"""
@@ -160,6 +168,8 @@ def mdd_ops(ctx, lens, steps, P='C15', rejected=0.06):
     case = lambda: dict(stream=s.label, lines=list(s.lines))  # noqa: E731
     for step in range(steps):
         k = rng.random()
+        if not collect and k >= 0.75 + rejected:
+            k = rng.random() * 0.75
         if k < 0.35 or len(held) < 2:
             tab = tuple(rng.random() < 0.5 for _ in space)
             u = build(tab)
@@ -359,3 +369,7 @@ def run(ctx):
     for lens in ([2], [3], [2, 2], [3, 2], [2, 3, 2], [4, 2]):
         for _ in range(2 if q else 12):
             mdd_ops(ctx, lens, 40 if q else 120)
+    # managers that never collect, one after the other (last: the cases above stay the same)
+    for lens in ([2], [3], [2, 2], [3, 2], [2, 3]):
+        for _ in range(3 if q else 12):
+            mdd_ops(ctx, lens, 25 if q else 60, collect=False)
